@@ -507,7 +507,9 @@ def _run_case(case):
     _rel_table(case, st, obs, base)
     if npos > 1 or (not g['scalar'] and rng.random() < 0.3):
         _rel_singles(case, rng, g, ap, data, error, mask, wcs, lbk, obs, base)
-    if labels and rng.random() < 0.5:
+    if labels and 'np.float32' in labels.values():
+        case.note('float32_scalar_form_not_judged_against_float64_twin')
+    elif labels and rng.random() < 0.5:
         _rel_float_radian(case, g, ap, data, error, mask, lbk, obs, labels, base)
     _documented_rejections(case, rng, g, ap, data, base)
     if g['scalar'] and form != 'sky' and rng.random() < 0.25:
